@@ -329,6 +329,8 @@ def obligations(tier):
         obs.append({"name": "crash model=F %s" % s, "fn": "crash", "cfg": {"scenario": s, "model": "F"}, "timeout": 200 if q else 900})
         obs.append({"name": "crash model=P pre-existing keys %s" % s, "fn": "crash",
                     "cfg": {"scenario": s, "model": "P", "pre_existing": True}, "timeout": 200 if q else 900})
+    obs.append({"name": "distinct keys live in distinct files (a crash inside a set can only hurt the key being written)", "module": "vt.props.C16",
+                "fn": "key_mapping", "cfg": {}, "timeout": 120})
     obs.append({"name": "set concurrent with a get of the same key (symbolic schedule), then power loss", "fn": "set_during_get",
                 "cfg": {"preemptions": 3 if q else 4}, "timeout": 300 if q else 900})
     for s in (["reset-same-value"] if q else sorted(SCENARIOS2)):
